@@ -695,6 +695,43 @@ def hygiene_of_callables(tree, rel):
     return facts
 
 
+def export_shapes(src, tree):
+    """the shape of the array as_array returns, as a function of (rows, elemsize): np.squeeze drops every axis of
+    length 1; `X[:,0] if elemsize==1 else X` drops the arity axis only"""
+    def shape_of(rel, e, base):
+        # e: expression returned; base(e) recognises the 2-d array
+        if isinstance(e, ast.Call) and T.dotted(e.func) == "np.squeeze" and len(e.args) == 1 and not e.keywords and base(e.args[0]):
+            return "squeeze [rows; elemsize]"
+        if base(e):
+            return "[rows; elemsize]"
+        if isinstance(e, ast.IfExp) and base(e.orelse) and isinstance(e.body, ast.Subscript) and base(e.body.value) \
+                and isinstance(e.body.slice, ast.Tuple) and len(e.body.slice.elts) == 2 \
+                and isinstance(e.body.slice.elts[0], ast.Slice) and e.body.slice.elts[0].lower is None and e.body.slice.elts[0].upper is None \
+                and isinstance(e.body.slice.elts[1], ast.Constant) and e.body.slice.elts[1].value == 0:
+            return "if %s then [rows] else [rows; elemsize]" % bexp(rel, e.test, {"self.elemsize": "elemsize"})
+        T.fail(rel, e, "as_array does not return np.squeeze(<array>) / <array> / <array>[:,0] if <test> else <array>")
+    fn = T.find_def(tree, "ArrayAttribute.as_array", ATTR)
+    body = T.body_nodoc(fn)
+    if not (len(body) == 1 and isinstance(body[0], ast.Return)):
+        T.fail(ATTR, fn, "dense as_array is not a single return")
+    dense = shape_of(ATTR, body[0].value, lambda e: T.dotted(e) == "self._data")
+    fn2 = T.find_def(tree, "Attribute.as_array", ATTR)
+    b2 = T.body_nodoc(fn2)
+    size = fn2.args.args[1].arg
+    ok = (len(b2) == 3 and isinstance(b2[0], ast.Assign) and isinstance(b2[0].targets[0], ast.Name)
+          and isinstance(b2[0].value, ast.Call) and T.dotted(b2[0].value.func) == "np.full"
+          and isinstance(b2[0].value.args[0], ast.Tuple) and [T.dotted(x) for x in b2[0].value.args[0].elts] == [size, "self.elemsize"]
+          and any(kw.arg == "dtype" and T.dotted(kw.value) == "self.type.dtype" for kw in b2[0].value.keywords)
+          and isinstance(b2[1], ast.For) and isinstance(b2[2], ast.Return))
+    if not ok:
+        T.fail(ATTR, fn2, "sparse as_array is not `out = np.full((size, elemsize), default, dtype=self.type.dtype); for ..; return ..`")
+    out = b2[0].targets[0].id
+    sparse = shape_of(ATTR, b2[2].value, lambda e: T.dotted(e) == out)
+    text = "Definition dense_export_shape (rows elemsize : Z) : list Z := %s.\n" % dense
+    text += "Definition sparse_export_shape (rows elemsize : Z) : list Z := %s.\n" % sparse
+    return text, [("ArrayAttribute.as_array", T.sha(src, fn)), ("Attribute.as_array", T.sha(src, fn2))]
+
+
 def constructors(csrc, ctree):
     """the containers copy the data they are given and make their own attribute dict when none is passed"""
     fn = T.find_def(ctree, "_BaseDataContainer.__init__", CONT)
@@ -762,6 +799,9 @@ def gen():
     body += t
     parts += ps
     t, ps = container(csrc, ctree, "CornerDataContainer", "cdc", ["self._elem", "self._adj"], True)
+    body += t
+    parts += ps
+    t, ps = export_shapes(src, tree)
     body += t
     parts += ps
     hygiene_of_callables(tree, ATTR)
